@@ -428,6 +428,10 @@ def run(prop, tier, seed, model_part=None):
             "outcomes": st["stats"],
             "request_protocol_layer": {"drift": st.get("protocol_drift", []), "drift_count": st.get("protocol_drift_count", 0),
                                        "clauses": "PR_* of MosaikRef!ProtoStep evaluated at every SETUP / SB / SE / DB / DE / STOP event of every execution"},
+            "information_request_layer": {"answers_judged": st.get("info_requests", {}), "drift": st.get("info_drift", []), "drift_count": st.get("info_drift_count", 0),
+                                          "clauses": "IR_* of MosaikRef!RefInfo: every get_progress answer lies between the bounds the observable history puts on the sum of the "
+                                                     "simulators' progress times as of the last completed step and never decreases; every get_related_entities answer "
+                                                     "(whole graph / one entity / list) equals the created entities and the connected pairs"},
             "clauses_of_other_properties_seen": {k: v for k, v in st["all_clauses_seen"].items() if not k.startswith(prop + "_")},
         },
         "checker_cmd": "tlc -workers 1 -config RefTrace.cfg RefTrace (TRACE_FILE=<batch>), batches of 400 executions",
